@@ -24,6 +24,36 @@ pub fn strided_tokens(all: &[f64], sent: f64) -> String {
     t
 }
 
+pub fn has_sentinel(all: &[f64], sent: f64) -> bool {
+    for x in all {
+        if x.to_bits() == sent.to_bits() { return true; }
+    }
+    false
+}
+
+/// a ring buffer of `len` sentinel slots, rotated until its storage is split in two slices (for
+/// `len >= 2`) and one step more
+pub fn wrapped_uninit(len: usize, sent: f64) -> std::collections::VecDeque<std::mem::MaybeUninit<f64>> {
+    use std::mem::MaybeUninit;
+    let mut buf: std::collections::VecDeque<MaybeUninit<f64>> = std::collections::VecDeque::with_capacity(len);
+    for _ in 0..len {
+        buf.push_back(MaybeUninit::new(sent));
+    }
+    if len >= 2 {
+        let mut extra = 1;
+        let mut guard = 0;
+        while (buf.as_slices().1.is_empty() || extra > 0) && guard < 4 * len + 8 {
+            if !buf.as_slices().1.is_empty() {
+                extra -= 1;
+            }
+            buf.pop_front();
+            buf.push_back(MaybeUninit::new(sent));
+            guard += 1;
+        }
+    }
+    buf
+}
+
 /// regime of a request: "types" (Vec in, Vec out, returned: all element/output types),
 /// "backend" (b= given), "outpath" (oc= / p= given)
 pub fn regime(r: &crate::proto::Req) -> &'static str {
@@ -82,6 +112,26 @@ macro_rules! __roll_finish_strided {
     }};
 }
 
+/// caller buffer that is a `VecDeque<MaybeUninit<f64>>` whose ring storage *wraps around* (a deque
+/// that has been used as a queue: head offset > 0, two non-empty slices): a perfectly legal
+/// `UninitRefMut` of `VecDeque<f64>`; every logical slot must be written
+#[macro_export]
+macro_rules! __roll_finish_wrapped {
+    ($r:expr, $len:expr, $OC:ident, $U:ident, $out:ident, $call:expr) => {{
+        const SENT: f64 = -7.25e300;
+        let mut __buf = $crate::rollrun::wrapped_uninit($len, SENT);
+        {
+            let $out: Option<<$OC as Vec1<$U>>::UninitRefMut<'_>> = Some(&mut __buf);
+            let __res: Option<$OC> = $call;
+            assert!(__res.is_none(), "out path returned a value");
+        }
+        let __all: Vec<f64> = __buf.iter().map(|m| unsafe { m.assume_init() }).collect();
+        let mut __t = $crate::proto::toks(&__all);
+        if $crate::rollrun::has_sentinel(&__all, SENT) { __t.push_str(";UNWRITTEN"); }
+        __t
+    }};
+}
+
 /// the option view (`v.opt()`, element type `Option<Inner>`) as input backend — only for null-aware
 /// entry points (`yes`); the plain family needs `T: Number`
 #[macro_export]
@@ -131,6 +181,7 @@ macro_rules! roll1_dispatch {
                     "deque" => { type $OC = std::collections::VecDeque<f64>; $crate::__roll_finish!($r, __len, $OC, $U, $out, $call) },
                     "nd" => { type $OC = $crate::backends::Array1<f64>; $crate::__roll_finish!($r, __len, $OC, $U, $out, $call) },
                     "nds" => { type $OC = $crate::backends::Array1<f64>; $crate::__roll_finish_strided!($r, __len, $OC, $U, $out, $call) },
+                    "dqw" => { type $OC = std::collections::VecDeque<f64>; $crate::__roll_finish_wrapped!($r, __len, $OC, $U, $out, $call) },
                     _ => { type $OC = Vec<f64>; $crate::__roll_finish!($r, __len, $OC, $U, $out, $call) },
                 }
             },
@@ -172,6 +223,7 @@ macro_rules! roll2_dispatch {
                     "deque" => { type $OC = std::collections::VecDeque<f64>; $crate::__roll_finish!($r, __len, $OC, $U, $out, $call) },
                     "nd" => { type $OC = $crate::backends::Array1<f64>; $crate::__roll_finish!($r, __len, $OC, $U, $out, $call) },
                     "nds" => { type $OC = $crate::backends::Array1<f64>; $crate::__roll_finish_strided!($r, __len, $OC, $U, $out, $call) },
+                    "dqw" => { type $OC = std::collections::VecDeque<f64>; $crate::__roll_finish_wrapped!($r, __len, $OC, $U, $out, $call) },
                     _ => { type $OC = Vec<f64>; $crate::__roll_finish!($r, __len, $OC, $U, $out, $call) },
                 }
             },
